@@ -199,8 +199,8 @@ func init() {
 			"a panic on malformed input is C11's business and counted inconclusive here",
 		},
 		Strata: []*fw.Stratum{
-			{Name: "programs", Quick: 3000, Thorough: 30000, Run: runC16Program},
-			{Name: "malformed-final-state", Quick: 100000, Thorough: 1000000, PanicInconclusive: true, Run: runC16Malformed},
+			{Name: "programs", Quick: 12000, Thorough: 100000, Run: runC16Program},
+			{Name: "malformed-final-state", Quick: 300000, Thorough: 2000000, PanicInconclusive: true, Run: runC16Malformed},
 		},
 	})
 }
